@@ -123,6 +123,15 @@ pub fn fragment_patterns() -> Vec<(&'static str, Vec<QDef>)> {
             fr("C", "Person", vec![o("friends", vec![f("name"), sp("A")])]),
             q(vec![o("me", vec![sp("A")])]),
         ]),
+        ("a mutual pair, each spreading the other twice", vec![
+            fr("A", "Person", vec![f("name"), o("friend", vec![sp("B")]), o("bestFriend", vec![f("name"), sp("B")])]),
+            fr("B", "Person", vec![o("friend", vec![f("name"), sp("A")]), o("bestFriend", vec![sp("A")])]),
+            q(vec![o("me", vec![sp("A")])]),
+        ]),
+        ("self, spread twice", vec![
+            fr("F", "Person", vec![f("name"), o("friend", vec![sp("F")]), o("bestFriend", vec![f("name"), sp("F")])]),
+            q(vec![o("me", vec![sp("F")])]),
+        ]),
         ("interface fragment recursing through an implementor", vec![
             fr("N", "Named", vec![Sel::typename(), f("name"), Sel::Inline { on: Some("Person".into()), sub: vec![o("named", vec![sp("N")])] }]),
             q(vec![o("named", vec![sp("N")])]),
@@ -222,7 +231,7 @@ pub fn run(outdir: &Path, tier: &str, seed: u64, shards: usize, replay: Option<S
         preludes: vec![],
     };
     cs.write(outdir, shards, json!({
-        "rule": "(a) two input types: all 5^4 labellings of the four ordered pairs with {no edge, T, T!, [T], [T!]!} x 4 @oneOf flaggings (quick: every third; thorough: all 2500); (b) seeded random graphs on 3-6 input types with 1-12 edges of the four kinds and random @oneOf types; (c) 12 fragment recursion patterns (self / mutual / 3-cycle / through lists, non-null fields, inline fragments, variant spreads; reaching but not on a cycle; shared cycles; non-recursive) x definition order x other-variant x normalization. Observation: emitted items (Box placement) parsed from the token stream. Non-trivial = at least one Box emitted.",
+        "rule": "(a) two input types: all 5^4 labellings of the four ordered pairs with {no edge, T, T!, [T], [T!]!} x 4 @oneOf flaggings (quick: every third; thorough: all 2500); (b) seeded random graphs on 3-6 input types with 1-12 edges of the four kinds and random @oneOf types; (c) 14 fragment recursion patterns (self / mutual / 3-cycle / a fragment spread twice under one root / through lists, non-null fields, inline fragments, variant spreads; reaching but not on a cycle; shared cycles; non-recursive) x definition order x other-variant x normalization. Observation: emitted items (Box placement) parsed from the token stream. Non-trivial = at least one Box emitted.",
         "distribution": dist, "samples": samples,
     }));
     runner::cleanup_scratch();
